@@ -111,14 +111,16 @@ BUILT = {
          "Lean evaluator, under all four flag combinations",
          "Theorems full; autograd itself is runtime (trusted, exercised). D27 (contributions through exactly-zero "
          "units are dropped in log space) is a recorded known finding.", "DESIGN.md 4/C13"),
- "C15": ("Lean 4 proof (the top-down sampling law of a normalised monotone circuit is its evaluation: per-layer "
-         "equations for sum / Hadamard / Kronecker layers, every sample has positive probability, the law is a "
-         "distribution) + correspondence: instrumented SamplingQuery — every layer step checked deterministically "
-         "against those equations on the recorded mixture choices, column frequencies vs weights, joint frequencies "
-         "vs exact probabilities of the Lean evaluator",
-         "Layer equations and the law proved for every tree; the equality of the library's bottom-up batched "
-         "propagation with the top-down law is carried by the per-layer deterministic checks (not mechanised); "
-         "frequencies are statistical (6 sigma, fixed seeds). D15 (scopes with gaps) is a recorded known finding.",
+ "C15": ("Lean 4 proof (the library's bottom-up batched propagation equals the top-down walk on any decomposable "
+         "circuit — propagate_eq_follow; the walk assigns exactly the variables of the scope, each from an input layer "
+         "of that variable — follow_complete / propagate_complete; every returned assignment is reachable and has "
+         "positive probability — follow_reach, propagate_positive, sample_support; the law of the walk is the "
+         "evaluation: per-layer equations, eval_is_distribution) + correspondence: instrumented SamplingQuery — the "
+         "model's propagate / follow run on the recorded draws vs the returned rows, every layer step checked "
+         "deterministically on the recorded mixture choices, column frequencies vs weights, joint frequencies vs exact "
+         "probabilities of the Lean evaluator",
+         "All theorems full. Frequencies are statistical (6 sigma, fixed seeds); the pseudo-random draws themselves "
+         "are runtime. D15 (scopes with gaps) is a recorded known finding.",
          "DESIGN.md 4/C15"),
  "C16": ("Lean 4 proof (region-graph validity implies partitions of pairwise disjoint parts that cover the parent, "
          "for any number of parts; dump/load is the identity; structured decomposability is a property of scopes, "
